@@ -167,6 +167,13 @@ func resolved(text, key string) bool { return text != "" && text != key }
 func keyOracle(c Case) vkit.Outcome {
 	var out vkit.Outcome
 	out.Key = "key:" + c.Family + ":" + c.Key + ":" + c.Lang
+	// The domain is "every key the code emits". A saved case whose key the
+	// code no longer emits (the finding was repaired by changing the call
+	// site) is outside it.
+	if scannedTree(); !emitted[c.Family+"\x00"+c.Key] {
+		out.Skip = "key is not emitted by the code (stale saved case)"
+		return out
+	}
 	// the catalog key that is really used: Key, or Alt when English has no Key
 	key := c.Key
 	if c.Alt != "" && !resolved(i18n.Text("en", c.Key), c.Key) {
@@ -332,8 +339,27 @@ func oracle(c Case) vkit.Outcome {
 }
 
 // fixed: the enumerated part. One case per (family, key, language).
+var (
+	scanOnce  sync.Once
+	scanRefs  []Ref
+	scanSt    scanStats
+	emitted   map[string]bool
+)
+
+// scanned returns the keys the tree emits (one scan per process).
+func scannedTree() ([]Ref, scanStats) {
+	scanOnce.Do(func() {
+		scanRefs, scanSt = scanTree(repoRoot())
+		emitted = map[string]bool{}
+		for _, r := range scanRefs {
+			emitted[r.Family+"\x00"+r.Key] = true
+		}
+	})
+	return scanRefs, scanSt
+}
+
 func fixed() []Case {
-	refs, st := scanTree(repoRoot())
+	refs, st := scannedTree()
 	type agg struct {
 		ref  Ref
 		refs int
